@@ -327,7 +327,14 @@ function makeRProxy(R, st, ctx) {
         const f = t[k]
         wrapped[k] = (...a) => {
           onPathCall(ctx, st, k, a)
-          return f.apply(t, a)
+          const el = a[0]
+          const before = k === 'r' && el && el._$modelBindingListeners ? el._$modelBindingListeners[a[1]] : undefined
+          const ret = f.apply(t, a)
+          if (k === 'r' && a[3] === null && before && el._$modelBindingListeners && el._$modelBindingListeners[a[1]] === before) {
+            // the expression is not assignable any more, yet the listener made for the old path stays
+            c11Violation(ctx, 'listener_kept_after_path_withdrawn', `R.r ${a[1]} on <${el.is}> was given a null model path (the expression is not assignable now) but the listener registered for the previous path is still in place`)
+          }
+          return ret
         }
         return wrapped[k]
       }
@@ -451,7 +458,14 @@ function wrapContent(content, tag, ctx) {
         if (!C) ctx.flushEvents.push({ kind: 'tree', st, U, data: D, batch: ctx.batchStack[ctx.batchStack.length - 1] })
       }
       const RP = makeRProxy(R, st, ctx)
-      const ret = pg(RP, C, D, U)
+      let ret
+      try {
+        ret = pg(RP, C, D, U)
+      } catch (e) {
+        // an exception that escapes the generated code itself (not a user handler)
+        if (!ctx.genThrow) ctx.genThrow = String(e && e.message)
+        throw e
+      }
       // updaters of the binding map run later with their own D: keep curData right for them
       if (ret && ret.B) {
         const B = ret.B
@@ -513,7 +527,12 @@ function ser(n) {
     const at = n.attributes
     if (at.length) o.attrs = at.map((a) => [a.name, a.value])
     const ml = n._$modelBindingListeners
-    if (ml && Object.keys(ml).length) o.model = Object.keys(ml)
+    if (ml && Object.keys(ml).length) {
+      // a listener that was given no path (or `null`: not assignable now) is a no-op
+      const rec = CTX && CTX.modelPaths.get(n)
+      const eff = Object.keys(ml).filter((k) => !rec || !rec[k] || rec[k].path)
+      if (eff.length) o.model = eff
+    }
   }
   const ds = n.dataset
   if (ds && Object.keys(ds).length) o.dataset = ds
@@ -522,7 +541,12 @@ function ser(n) {
   if (ls) o.listeners = ls
   if (n._$slotName !== null && n._$slotName !== undefined) {
     o.slotName = n._$slotName
-    if (n._$slotValues && Object.keys(n._$slotValues).length) o.slotValues = n._$slotValues
+    if (n._$slotValues) {
+      // a slot value that is undefined reads the same as one that was never set
+      const sv = {}
+      for (const k of Object.keys(n._$slotValues)) if (n._$slotValues[k] !== undefined) sv[k] = n._$slotValues[k]
+      if (Object.keys(sv).length) o.slotValues = sv
+    }
   }
   if (n instanceof ge.Component) {
     o.data = n.data
@@ -659,6 +683,7 @@ function newCtx(quiet) {
     wrapperSeq: 0,
     modelPaths: new WeakMap(),
     flushEvents: [],
+    genThrow: null,
     batchStack: [],
     c11: null,
     expectNoPath: false,
@@ -713,6 +738,20 @@ function collectChildren(root) {
 }
 
 // ---------------------------------------------------------------- the world job
+
+// Symbolic op targets ("index k modulo the length") are resolved against the data as it will be
+// once the queued changes apply, so that an op never addresses an element a queued change removes
+// (which would make the runtime grow the array with holes).
+function shadowSet(d, p, v) {
+  let cur = d
+  for (let i = 0; i < p.length - 1; i += 1) {
+    if (!isObj(cur[p[i]])) return false
+    cur = cur[p[i]]
+  }
+  if (!isObj(cur)) return false
+  cur[p[p.length - 1]] = v
+  return true
+}
 function bump(ctx, k, n = 1) {
   ctx.counters[k] = (ctx.counters[k] || 0) + n
 }
@@ -767,10 +806,18 @@ function runWorld(job) {
     root = createRoot(job, groupList, ctx, clone(D0))
   } catch (e) {
     CTX = null
+    if (/^[\w$]+ is not iterable/.test(String(e && e.message))) {
+      ctx.genThrow = String(e && e.message)
+      // the emitted l-value path expression spreads a path that is null (item of a list without a path)
+      return { id: job.id, status: 'ok', counters: ctx.counters, steps: 0, logHash: fnv('throw'), violation: { property: 'C11', class: 'lvalue_path_expression_throws', step: 0, detail: 'creation: the generated code throws while building an l-value path: ' + ctx.genThrow } }
+    }
     return { id: job.id, status: 'unexecutable', reason: 'creation throws: ' + String(e && e.message).slice(0, 300) }
   }
   if (errorCount) {
     CTX = null
+    if (/^[\w$]+ is not iterable/.test(String(lastError && lastError.message))) {
+      return { id: job.id, status: 'ok', counters: ctx.counters, steps: 0, logHash: fnv('throw'), violation: { property: 'C11', class: 'lvalue_path_expression_throws', step: 0, detail: 'creation: the generated code throws while building an l-value path: ' + String(lastError.message) } }
+    }
     return { id: job.id, status: 'unexecutable', reason: 'creation reports error: ' + String(lastError && lastError.message).slice(0, 300) }
   }
   const dataGroup = root._$dataGroup
@@ -832,6 +879,11 @@ function runWorld(job) {
     // called after anything that may have applied updates
     const events = ctx.flushEvents
     ctx.flushEvents = []
+    if (errorCount && /^[\w$]+ is not iterable/.test(String(lastError && lastError.message))) {
+      violation('C11', 'lvalue_path_expression_throws', `${label}: the generated code throws while building an l-value path: ${String(lastError.message)}`)
+      ended = 'runtime_error'
+      return
+    }
     if (errorCount) {
       ended = 'runtime_error'
       bump(ctx, 'discard.runtime_error_in_update')
@@ -955,34 +1007,43 @@ function runWorld(job) {
 
   // schedule ----------------------------------------------------------------------------------
   const ops = job.schedule || []
+  let shadow = clone(root.data)
+  let shadowDirty = false
   for (const op of ops) {
     if (ended || res.violation) break
     step += 1
     const kind = op[0]
+    if (!shadowDirty) shadow = clone(root.data)
     try {
       if (kind === 'set') {
-        const p = resolvePath(root.data, op[1])
+        const p = resolvePath(shadow, op[1])
         if (p === null) {
           ctx.log.push('skip set')
           bump(ctx, 'step.op_skipped')
           continue
         }
         const v = dec(op[2])
+        if (!shadowSet(shadow, p, clone(v))) {
+          bump(ctx, 'step.op_skipped')
+          continue
+        }
+        shadowDirty = true
         root.replaceDataOnPath(p, clone(v))
         ctx.log.push(`set ${enc(p)} ${enc(v)}`)
         bump(ctx, 'step.op.set')
       } else if (kind === 'clone') {
-        const p = resolvePath(root.data, op[1])
+        const p = resolvePath(shadow, op[1])
         if (p === null) continue
-        const cur = getPath(root.data, p)
+        const cur = getPath(shadow, p)
+        shadowDirty = true
         root.replaceDataOnPath(p, clone(cur))
         ctx.log.push(`clone ${enc(p)}`)
         bump(ctx, 'step.op.clone')
         bump(ctx, isObj(cur) ? 'fault.coarse_mark' : 'fault.noop_mark_requested')
       } else if (kind === 'splice' || kind === 'splice_safe') {
-        const p = resolvePath(root.data, op[1])
+        const p = resolvePath(shadow, op[1])
         if (p === null) continue
-        const arr = getPath(root.data, p)
+        const arr = getPath(shadow, p)
         if (!Array.isArray(arr)) {
           bump(ctx, 'step.op_skipped')
           continue
@@ -990,12 +1051,14 @@ function runWorld(job) {
         const at = op[2] % (arr.length + 1)
         const del = Math.min(op[3], arr.length - at)
         const ins = dec(op[4])
+        const arrBefore = arr.slice()
+        arr.splice(at, del, ...clone(ins))
+        shadowDirty = true
         if (ins.length > del) bump(ctx, 'fault.list_grow')
         else if (ins.length < del) bump(ctx, 'fault.list_shrink')
         if (kind === 'splice_safe' && ins.length < del) {
           // a shrinking splice cannot re-mark positions that cease to exist: replace the list
           const after = clone(arr)
-          after.splice(at, del, ...clone(ins))
           root.replaceDataOnPath(p, after)
           ctx.log.push(`splice-as-replace ${enc(p)} ${at} ${del} ${enc(ins)}`)
           bump(ctx, 'step.op.splice_as_replace')
@@ -1006,15 +1069,15 @@ function runWorld(job) {
         bump(ctx, 'step.op.splice')
         if (kind === 'splice_safe' && ins.length !== del) {
           // legal over-approximation: re-set every shifted index in the same batch
-          const after = arr.slice()
-          after.splice(at, del, ...ins)
+          const after = arr
           for (let i = at + ins.length; i < after.length; i += 1) root.replaceDataOnPath([...p, i], clone(after[i]))
+          void arrBefore
           bump(ctx, 'fault.splice_then_item_set')
         }
       } else if (kind === 'reorder') {
-        const p = resolvePath(root.data, op[1])
+        const p = resolvePath(shadow, op[1])
         if (p === null) continue
-        const arr = getPath(root.data, p)
+        const arr = getPath(shadow, p)
         if (!Array.isArray(arr) || arr.length < 2) {
           bump(ctx, 'step.op_skipped')
           continue
@@ -1027,6 +1090,8 @@ function runWorld(job) {
           next[0] = next[1]
           next[1] = t
         }
+        shadowSet(shadow, p, clone(next))
+        shadowDirty = true
         root.replaceDataOnPath(p, next)
         ctx.log.push(`reorder ${enc(p)} ${op[2]}`)
         bump(ctx, 'fault.list_reorder')
@@ -1036,6 +1101,7 @@ function runWorld(job) {
         else if (n === 1) bump(ctx, dataGroup._$pendingChanges[0][0].length === 1 ? 'fault.single_toplevel' : 'fault.single_nested')
         ctx.log.push(`flush pending=${n}`)
         root.applyDataUpdates()
+        shadowDirty = false
         bump(ctx, 'step.flush')
         afterFlush('flush@' + step)
       } else if (kind === 'model') {
@@ -1048,6 +1114,7 @@ function runWorld(job) {
           // a view that lags behind queued changes is the user's race, not a wrong path:
           // bring it up to date before writing through it
           root.applyDataUpdates()
+          shadowDirty = false
           afterFlush('premodel@' + step)
           if (ended || res.violation) break
         }
@@ -1062,6 +1129,11 @@ function runWorld(job) {
         if (l.kind === 'native') {
           l.fn.call(l.node, clone(v))
           bump(ctx, 'fault.model_write')
+        } else if (!entry || !entry.path) {
+          // the component's listener is a no-op (no assignable path now): writing would only
+          // create child-local state that no host data reproduces
+          bump(ctx, 'step.op_skipped')
+          continue
         } else {
           // a component writes its own property; the runtime then calls the listener
           const beforeVal = l.node.data[l.name]
@@ -1107,6 +1179,7 @@ function runWorld(job) {
           afterFlush('preraw@' + step)
           if (ended || res.violation) break
         }
+        shadowDirty = false
         const next = clone(root.data)
         let patchedAll = true
         for (const [pth, v] of op[1]) {
@@ -1141,6 +1214,7 @@ function runWorld(job) {
         ctx.log.push(`timers ${n}`)
       }
     } catch (e) {
+      if (/^[\w$]+ is not iterable/.test(String(e && e.message))) violation('C11', 'lvalue_path_expression_throws', `step ${step}: the generated code throws while building an l-value path: ${String(e.message)}`)
       ended = 'op_throws'
       bump(ctx, 'discard.op_throws')
       res.errorMessage = String(e && e.stack ? e.stack : e).slice(0, 400)
